@@ -106,7 +106,7 @@ Print Assumptions C07_spsc_disconnected_means_drained.
 
 Theorem C07_spsc_call_after_disconnect : forall s, Reach true s -> rdead (R s) = true ->
   chans s = 0 /\
-  match rp (R s) with RPark | RSusp | KStore | KEmpty | KChans | KTake | RStore => False | _ => True end /\
+  match rp (R s) with RPark | RSusp | KStore | KEmpty | KChans | KTake | KRun | RStore => False | _ => True end /\
   (rp (R s) = RIdle -> match rres (R s) with REmpty => False | _ => True end).
 Proof. exact spsc_call_after_disconnect. Qed.
 Print Assumptions C07_spsc_call_after_disconnect.
